@@ -32,4 +32,4 @@ def streams(ctx):
     return [bfs_stream(ctx, c08_pred, "dk", has_fault, guarded=c08_resume_pred), make_stream("srv", cases, c08_pred,
                         "%d generated scripts with worker faults + corpus; every snapshot compared; no panic/spin, bypass, single notice, rejoin checked" % n,
                         has_fault, guarded=c08_resume_pred),
-            bld_stream(ctx, ("C08", "C01"), ["k", "k", "ck", "k", "d", "cd", "kd", "kz"], 88, 1500)]
+            bld_stream(ctx, ("C08", "C01"), ["k", "k", "ck", "k", "d", "cd", "kd", "kz", "km", "ckm", "km"], 112, 1800, ws=(1, 2, 3, 3, 4))]
